@@ -25,6 +25,7 @@ import (
 	"fmt"
 	"io"
 	"net"
+	"os"
 	"strings"
 	"sync"
 	"syscall"
@@ -32,7 +33,10 @@ import (
 
 	"github.com/IrineSistiana/mosproxy/internal/upstream"
 	"github.com/IrineSistiana/mosproxy/verifharness/hx"
+	"github.com/rs/zerolog"
 )
+
+var ogDiag = os.Getenv("C14_DIAG") != ""
 
 func init() {
 	register("aged", 40, runAged)
@@ -70,8 +74,9 @@ func ogURL(tr, addr string) string {
 // one watchdogged exchange: 'R' reply, 'E' error, 'L' later than deadline + slack, 'H' not back after deadline + 2.5 s
 func ogOne(u upstream.Upstream, id uint16, d time.Duration) (byte, time.Duration) {
 	type xr struct {
-		ok bool
-		el time.Duration
+		ok  bool
+		el  time.Duration
+		err error
 	}
 	rc := make(chan xr, 1)
 	go func() {
@@ -79,7 +84,7 @@ func ogOne(u upstream.Upstream, id uint16, d time.Duration) (byte, time.Duration
 		ctx, cancel := context.WithTimeout(context.Background(), d)
 		defer cancel()
 		r, err := u.ExchangeContext(ctx, hx.BuildQuery(id, []byte("\x03c14\x04test"), 1, 1, true))
-		rc <- xr{ok: err == nil && r != nil && r.Header.ID == id && len(r.Answers) == 1, el: time.Since(t0)}
+		rc <- xr{ok: err == nil && r != nil && r.Header.ID == id && len(r.Answers) == 1, el: time.Since(t0), err: err}
 	}()
 	select {
 	case r := <-rc:
@@ -88,6 +93,9 @@ func ogOne(u upstream.Upstream, id uint16, d time.Duration) (byte, time.Duration
 			return 'L', r.el
 		case r.ok:
 			return 'R', r.el
+		}
+		if ogDiag {
+			fmt.Fprintf(os.Stderr, "c14 diag: exchange %#x failed after %v (deadline %v): %v\n", id, r.el, d, r.err)
 		}
 		return 'E', r.el
 	case <-time.After(d + ogHangAfter):
@@ -121,7 +129,12 @@ func agedCase(f map[string]string) string {
 	if url == "" {
 		return "HARNESS-ERROR unknown transport " + tr
 	}
-	u, err := upstream.NewUpstream(url, upstream.Opt{TLSConfig: &tls.Config{InsecureSkipVerify: true}})
+	opt := upstream.Opt{TLSConfig: &tls.Config{InsecureSkipVerify: true}}
+	if ogDiag {
+		lg := zerolog.New(os.Stderr).With().Str("case", f["tr"]+"/"+f["age"]).Timestamp().Logger().Level(zerolog.DebugLevel)
+		opt.Logger = &lg
+	}
+	u, err := upstream.NewUpstream(url, opt)
 	if err != nil {
 		return "HARNESS-ERROR " + err.Error()
 	}
